@@ -271,7 +271,7 @@ def Rightward (lit : List Char → St → Option (St × List Char)) : Prop :=
   ∀ l s u v, lit l s = some (u, v) → u.2 <:+ s.2
 
 theorem litTok_rightward (cc : CharClasses) (cfg : Cfg) : Rightward (litTok cc cfg) :=
-  fun l s u v h => tokMatch_suffix cc _ s u v h
+  fun _ s u v h => tokMatch_suffix cc _ s u v h
 
 theorem term_suffix {tm : St → Option (St × List Char)} (htm : ∀ s u v, tm s = some (u, v) → u.2 <:+ s.2)
     (s t : St) (toks : List Tk) (h : term tm s = some (t, toks)) : t.2 <:+ s.2 := by
